@@ -1,6 +1,7 @@
 package exif2
 
 import (
+	"bufio"
 	"sync"
 
 	"github.com/evanoberholster/imagemeta/exif2/tag"
@@ -137,6 +138,11 @@ func (ir *ifdReader) discard(n int) (err error) {
 		n, err = br.Discard(n)
 		ir.po += uint32(n)
 		return err
+	}
+	if n < 0 {
+		// as bufio.Reader.Discard answers on the buffered path: a value that
+		// lies behind the reader cannot be reached on a forward-only stream
+		return bufio.ErrNegativeCount
 	}
 	var discarded int
 	for n > 0 && err == nil {
